@@ -1583,8 +1583,8 @@ def run(ck):
         fp_plan.append((kind, rng.choice(VARIANT_LIST), "clone2"))
     # memo stress last (its thousands of generated classes make every later snapshot larger)
     fp_plan.append(("doc-bulk", "plain", "orig"))
-    BULK_N[0] = 1500 if quick else 6000
-    transient_every = 40 if quick else 10
+    BULK_N[0] = 1500 if quick else 3000
+    transient_every = 40 if quick else 20
     transient_budget = 6 if quick else 10 ** 9
     for n, (kind, variant, how) in enumerate(fp_plan):
         clients = [world.new_client(variant if how == "orig" else "plain")]
@@ -1606,7 +1606,8 @@ def run(ck):
                 clear_memo_caches(world, clients)
             spec = gen_spec(rng, kind, "f%d%s" % (n, mode))
             te = transient_every if (mode == "cold" and n < transient_budget) or not quick else 0
-            if not quick and mode == "cold" and how == "orig" and variant == "plain":
+            if not quick and mode == "cold" and how == "orig" and variant == "plain" \
+                    and kind in ("doc-echo", "enc-item", "lit-item"):
                 te = 1          # a snapshot at every call/return event inside suds
             if kind == "doc-bulk":
                 # cold: the cache starts empty and a bound is reached inside the call (intermediate
@@ -1671,7 +1672,21 @@ def run(ck):
 
     # ---------------- instrument 2: schedules ----------------
     rec = schedule_cases(ck, world, runner, rng, quick, memo_cells, suspicious_fp, fp_meta)
-    res_sc = ck.run_cases("sched", PRE, "sched_case", rec.cases, ["sc_agrees", "sc_spec_ok"], shard=100)
+    # shards by literal size: ordinary cases ~300 KB per shard; the memo-stress cases (thousands of
+    # memo cells per call, long model runs) in small shards of their own with a larger timeout
+    light = [i for i, t in enumerate(rec.cases) if len(t) <= 6000]
+    heavy = [i for i, t in enumerate(rec.cases) if len(t) > 6000]
+    res_sc = {"sc_agrees": [], "sc_spec_ok": []}
+    for name, idxs, budget, tmo in (("sched", light, 300000, 1500), ("schedm", heavy, 120000, 3000)):
+        if not idxs:
+            continue
+        avg = max(1, sum(len(rec.cases[i]) for i in idxs) // len(idxs))
+        shard = max(2, min(150, budget // avg))
+        r = ck.run_cases(name, PRE, "sched_case", [rec.cases[i] for i in idxs],
+                         ["sc_agrees", "sc_spec_ok"], shard=shard, timeout=tmo)
+        for pred in res_sc:
+            res_sc[pred].extend(idxs[j] for j in r[pred])
+    ck.extra["sched_shards"] = {"light_cases": len(light), "heavy_cases": len(heavy)}
     bad_sc = set(res_sc["sc_spec_ok"])
     for i in sorted(bad_sc):
         for c_no, m in rec.fail_meta:
@@ -2172,8 +2187,7 @@ def schedule_cases(ck, world, runner, rng, quick, memo_cells, suspicious_fp, fp_
             if rec.failing() >= 3:
                 break
             saved_n = BULK_N[0]
-            if quick and not memo_hot:
-                BULK_N[0] = 300
+            BULK_N[0] = 1500 if memo_hot else (300 if quick else 600)
             try:
                 setup = Setup("same", ["plain"], [(0, ka, gen_spec(rng, ka, "MA%d" % sn)),
                                                   (0, "doc-bulk", gen_spec(rng, "doc-bulk", "MB%d" % sn))])
@@ -2183,9 +2197,9 @@ def schedule_cases(ck, world, runner, rng, quick, memo_cells, suspicious_fp, fp_
             _, names = runner.count_events(setup, 0, lines=True)
             inside = [nm for nm in names if tuple(nm.split(":")[:2]) in focus]
             ks = list(range(1, len(inside) + 1))
-            if quick and not memo_hot:
+            if not memo_hot:
                 rng.shuffle(ks)
-                ks = sorted(ks[:12])
+                ks = sorted(ks[:12 if quick else 40])
             for k in ks:
                 if rec.failing() >= 3:
                     break
@@ -2325,7 +2339,7 @@ def schedule_cases(ck, world, runner, rng, quick, memo_cells, suspicious_fp, fp_
                              {"probe": "clone", "history": [], "how": "schedule scenario"})
             continue
     # --- (b) random schedules, <= 3 preemptions, 2..4 threads, line granularity ---
-    n_random = 60 if quick else 1500
+    n_random = 60 if quick else 800
     t_budget2 = time.time() + (60 if quick else 3600)
     for rn in range(n_random):
         try:
